@@ -153,7 +153,11 @@ func (e *Engine) canon(st *State, x ast.Expr) keyInfo {
 		var out keyInfo
 		var parts []string
 		name := ""
-		if callee == nil || !e.pureCallee(callee) {
+		if callee == nil {
+			if o := objOf(info, e.ResolveExpr(x.Fun)); o == nil || !e.PureDyn[o] {
+				return keyInfo{}
+			}
+		} else if !e.pureCallee(callee) {
 			// the result of an impure (or unknown) call is not a stable atom: `for scanner.Scan()` must be re-evaluated
 			return keyInfo{}
 		}
